@@ -52,8 +52,9 @@ def run(ctx):
                 while not in_domain(j):
                     j = random_junk(rng)
                 lastext.JUNK[k] = j
-            text = [dict(ln, id=(rng.choice([1, 2, 3, 4, 5, 6, 7, 8, 9, 10, 11, 12, 13, 14, 15, 20, 21, 22]) if rep else ln["id"])) if ln["k"] == "junk" else ln
-                    for ln in inst["text"]]
+            same = rng.choice([13, 16, 17, 20]) if rep % 3 == 2 else None     # the same (parseable) junk line more than once
+            text = [dict(ln, id=(same or rng.choice([1, 2, 3, 4, 5, 6, 7, 8, 9, 10, 11, 12, 13, 14, 15, 16, 17, 20, 21, 22]) if rep else ln["id"]))
+                    if ln["k"] == "junk" else ln for ln in inst["text"]]
             inst2 = dict(inst, text=text)
             concrete = lastext.concretise(text, rng, {"plain": rep % 2 == 0})
             ev = lastext.read_event("C19", inst2, concrete, engines=("numpy",))
